@@ -42,7 +42,7 @@ def run(prog, rep, tier='quick'):
     f = prog.func('correlation', 'CORRELATION')
     where = loc(f.mod, f.node)
     Aff.SYM_MIN['Ny'] = 8
-    n_pad = n_conj = n_norm = 0
+    n_pad = n_conj = n_norm = n_zero = 0
     # ---------------- pad
     for cplx in (False, True):
         x = C.data(cplx, label='x')
@@ -111,20 +111,23 @@ def run(prog, rep, tier='quick'):
     for fname in ('CORRELATION', 'xcorr'):
         g = prog.func('correlation', fname)
         gwhere = loc(g.mod, g.node)
-        for cplx in (False, True):
+        for cplx, cplx_y in ((False, False), (True, True), (False, True), (True, False)):
             for norm, _sz in NORMS:
                 for cross in (False, True):
                     if cross and norm == 'coeff':
                         continue      # C09 defines the coeff normalisation for the autocorrelation only
+                    if cplx != cplx_y and not (cross and norm == 'biased'):
+                        continue      # mixed kinds (one real, one complex sequence): one cross-correlation context each way
                     x = C.data(cplx, label='x')
                     args = [x]
                     if cross:
-                        args.append(C.data(cplx, label='y', second=True))
+                        args.append(C.data(cplx_y, label='y', second=True))
                     itp = C.new_interp(prog)
                     itp.capture_locals[g.qname] = ['res', 'lags', 'r0', 'maxlags']
                     v, itp = C.run_function(prog, 'correlation', fname, args,
                                             {'maxlags': C.symint('L', 1, 'lag'), 'norm': Const(norm)}, itp=itp)
-                    label = 'norm=%s,%s,%s' % (norm, 'complex' if cplx else 'real', 'cross' if cross else 'auto')
+                    label = 'norm=%s,%s,%s' % (norm, ('complex' if cplx else 'real') if cplx == cplx_y else
+                                               ('x complex/y real' if cplx else 'x real/y complex'), 'cross' if cross else 'auto')
                     if blocked(rep, 'conj', g.qname, label, itp):
                         continue
                     comps = ('s', 'g', 'sy', 'gy')
@@ -135,17 +138,43 @@ def run(prog, rep, tier='quick'):
                         continue
                     ph = 1 if cplx else 0
                     if cross:
-                        exp = {'s': F(1), 'sy': F(1), 'g': F(ph), 'gy': F(-ph)}
+                        exp = {'s': F(1), 'sy': F(1), 'g': F(ph), 'gy': F(-1 if cplx_y else 0)}
                     else:
                         exp = {'s': F(2), 'sy': F(0), 'g': F(0), 'gy': F(0)}
                     if norm == 'coeff':
                         exp['s'] = F(0)
                         exp['sy'] = F(0)
                     n_conj += 1
+                    for c_ in [c_ for c_ in itp.conflicts if c_.comp == 'dtype']:
+                        k_ = ('dtype', c_.func, c_.construct)
+                        if k_ not in seen:
+                            seen.add(k_)
+                            rep.violation('conj', c_.func, c_.construct, '%s (first seen for %s): the lag values lose their imaginary '
+                                          'part' % (c_.msg, label), loc(c_.mod, c_.node))
+                    if (cplx or cplx_y) and isinstance(r, Num) and r.cplx is False:
+                        rep.violation('conj', g.qname, label + ' dtype', 'the correlation of a complex sequence is returned in a real '
+                                      'array: the imaginary part of every lag value is discarded', gwhere)
                     if not nconf:
                         check_sink(rep, 'conj', g.qname, label, 'r', r, exp, gwhere, itp, comps, seen)
                     # ---- norm
-                    if cross or cplx:
+                    if fname == 'xcorr' and not cross and norm == 'biased':
+                        # boundary of the lag range: maxlags = 0 is a requested lag count like any other (one value, lag 0)
+                        v0, itp0 = C.run_function(prog, 'correlation', fname, [C.data(cplx, label='x')],
+                                                  {'maxlags': Const(0), 'norm': Const(norm)})
+                        lab0 = 'maxlags=0,%s' % ('complex' if cplx else 'real')
+                        n_zero += 1
+                        if not blocked(rep, 'lags', g.qname, lab0, itp0):
+                            r0_, l0_ = (v0.items if isinstance(v0, Tup) and len(v0.items) == 2 else (None, None))
+                            n1 = r0_.shape[0] if isinstance(r0_, Num) and r0_.shape else None
+                            n2 = l0_.shape[0] if isinstance(l0_, Num) and l0_.shape else None
+                            if n1 is None or n2 is None:
+                                rep.undecided('lags', g.qname, lab0, 'lengths of the returned pair not derivable', gwhere)
+                            elif n1 == Aff(1) and n2 == Aff(1):
+                                rep.proved('lags', g.qname, lab0, 'one value and one lag', gwhere)
+                            else:
+                                rep.violation('lags', g.qname, lab0, 'maxlags=0 returns %s values and %s lags, expected 2*maxlags+1 = 1 '
+                                              '(the requested lag count is treated as absent)' % (n1, n2), gwhere)
+                    if cross or cplx or cplx_y:
                         continue
                     n_norm += 1
                     if fname == 'CORRELATION':
@@ -240,3 +269,4 @@ def run(prog, rep, tier='quick'):
     rep.floor('conjugation contexts', n_conj, 28)
     rep.floor('normalisation contexts', n_norm, 8)
     rep.floor('corrmtx contexts', n_shape, 10)
+    rep.floor('maxlags=0 contexts', n_zero, 2)
